@@ -1126,3 +1126,52 @@ class PCanon(Canon):
         t = Canon.r(self, n, depth, env)
         # `match (a, b) { (Some(aa), Some(bb)) => ..` : project the tuple literal
         return t.replace("($P0, $P1).0", "$P0").replace("($P0, $P1).1", "$P1")
+
+
+def _anc_index(h):
+    ix = h.get("_anc_ix")
+    if ix is None:
+        ix = {id(n): a for n, a in walk(h["body"])}
+        h["_anc_ix"] = ix
+    return ix
+
+
+def binding_let(h, use):
+    """the `let` statement a use of a local resolves to (scope- and shadowing-aware), or None"""
+    use = strip_refs(use) if isinstance(use, dict) else {}
+    if use.get("k") != "path" or use.get("res") != "local":
+        return None
+    b = scope_binding(h, _anc_index(h).get(id(use), ()), use["path"], use)
+    return b[1] if b and b[0] == "let" else None
+
+
+def uses_of_let(h, let_stmt):
+    """every use of a local that resolves to `let_stmt`"""
+    out = []
+    for n, anc in walk(h["body"]):
+        if n.get("k") == "path" and n.get("res") == "local":
+            b = scope_binding(h, anc, n["path"], n)
+            if b and b[0] == "let" and b[1] is let_stmt:
+                out.append(n)
+    return out
+
+
+def neighbour_tests(h):
+    """`X.windows(2)` / `X.chunks(2)` iterations in `h` whose closure compares the two members of the pair, with whether `X` was
+    sorted earlier in the function (a neighbour comparison finds every equal pair only in sorted data).
+    -> [(windows node, receiver text, sorted_before)]"""
+    out = []
+    stmts = top_stmts(h)
+
+    def top_ix(x):
+        for i_, t_ in enumerate(stmts):
+            if t_ is x or contains_node(t_, x):
+                return i_
+        return -1
+    for n, anc in walk(h["body"]):
+        if n.get("k") == "mcall" and n["name"] in ("windows", "array_windows") and isinstance(n.get("recv"), dict):
+            recv = src(strip_refs(n["recv"]))
+            sorts = [x for x, _ in walk(h["body"]) if x.get("k") == "mcall" and x["name"].startswith("sort") and isinstance(x.get("recv"), dict) and src(strip_refs(x["recv"])) == recv]
+            dedups = [x for x, _ in walk(h["body"]) if x.get("k") == "mcall" and x["name"] == "sorted"]
+            out.append((n, recv, any(0 <= top_ix(x) <= top_ix(n) for x in sorts)))
+    return out
